@@ -1300,4 +1300,61 @@ theorem foods_apart (s : State) (h : foodsApart s) :
   · intro he; rw [he] at hd; simp [dist] at hd
   · omega
 
+/-! ### audit r6 #6: what `step` does with a move action (after `fix_collisions`) -/
+
+theorem addP_dir_ne (p : Pos) {a : Nat} (h1 : 1 ≤ a) (h4 : a ≤ 4) : addP p (dir a) ≠ p := by
+  have : a = 1 ∨ a = 2 ∨ a = 3 ∨ a = 4 := by omega
+  intro h
+  have h1 := congrArg Prod.fst h
+  have h2 := congrArg Prod.snd h
+  rcases this with rfl | rfl | rfl | rfl <;> simp [addP, dir] at h1 h2 <;> omega
+
+theorem step_moves_iff_legal (cfg : Cfg) (s : State) (hw : WF s) (as : List Nat)
+    (hlen : as.length = s.agents.length) (has : ∀ a ∈ as, a < 6) (i : Nat) (hi : i < s.agents.length)
+    (hm : 1 ≤ as[i]'(by omega) ∧ as[i]'(by omega) ≤ 4) :
+    ∃ h : i < (step cfg s (as.map Int.ofNat)).1.agents.length,
+      (((step cfg s (as.map Int.ofNat)).1.agents[i]).pos = addP s.agents[i].pos (dir (as[i]'(by omega))) ↔
+        (legal cfg.gridSize s i (as[i]'(by omega)) ∧
+         ¬ ∃ u ∈ (targets cfg.gridSize s as).eraseIdx i, u = addP s.agents[i].pos (dir (as[i]'(by omega))))) := by
+  have hA : (step cfg s (as.map Int.ofNat)).1.agents = movedL2 cfg.gridSize s as :=
+    updateAgents_eq_movedL2 cfg.gridSize s hw as hlen has
+  have hAl : (movedL2 cfg.gridSize s as).length = s.agents.length := by simp [movedL2]
+  have hi' : i < (step cfg s (as.map Int.ofNat)).1.agents.length := by rw [hA, hAl]; exact hi
+  refine ⟨hi', ?_⟩
+  have hia : i < as.length := by omega
+  have hne := addP_dir_ne s.agents[i].pos hm.1 hm.2
+  have hget : (step cfg s (as.map Int.ofNat)).1.agents[i] = (movedL2 cfg.gridSize s as)[i]'(by rw [hAl]; exact hi) := by
+    simp [hA]
+  rw [hget]
+  have htl : (targets cfg.gridSize s as).length = s.agents.length := by simp [targets]
+  have hleg : legal cfg.gridSize s i as[i] ↔ freeCell cfg.gridSize s i (addP s.agents[i].pos (dir as[i])) := by
+    unfold legal legalFor
+    rw [List.getElem?_eq_getElem hi]
+    simp only []
+    constructor
+    · rintro (h | h | h)
+      · omega
+      · exact h.2.2
+      · omega
+    · intro h; exact Or.inr (Or.inl ⟨hm.1, hm.2, h⟩)
+  have htg : (targets cfg.gridSize s as).getD i s.agents[i].pos =
+      if freeCell cfg.gridSize s i (addP s.agents[i].pos (dir as[i])) then addP s.agents[i].pos (dir as[i]) else s.agents[i].pos := by
+    simp [targets, target, hi, hia, hm.1, hm.2, List.getD_eq_getElem?_getD]
+  simp only [movedL2, List.getElem_map, List.getElem_range, List.getD_eq_getElem?_getD, List.getElem?_eq_getElem hi,
+    Option.getD_some]
+  rw [hleg]
+  have htg' : ((targets cfg.gridSize s as)[i]?.getD s.agents[i].pos) =
+      if freeCell cfg.gridSize s i (addP s.agents[i].pos (dir as[i])) then addP s.agents[i].pos (dir as[i]) else s.agents[i].pos := by
+    rw [← List.getD_eq_getElem?_getD]; exact htg
+  rw [htg']
+  by_cases hf : freeCell cfg.gridSize s i (addP s.agents[i].pos (dir as[i]))
+  · simp only [hf, if_true, true_and]
+    by_cases hd : ∃ u ∈ (targets cfg.gridSize s as).eraseIdx i, u = addP s.agents[i].pos (dir as[i])
+    · simp only [hd, if_true, not_true, iff_false]; exact fun h => hne h.symm
+    · simp only [hd, if_false, not_false_iff]
+  · simp only [hf, if_false, false_and, iff_false]
+    split
+    · exact fun h => hne h.symm
+    · exact fun h => hne h.symm
+
 end LBF
